@@ -500,6 +500,10 @@ impl SpriteSem {
             if !self.visible(l) {
                 continue;
             }
+            if l > u16::MAX as usize {
+                // the cel chunk's layer index is a 16-bit field: such a layer cannot hold a cel
+                continue;
+            }
             let Some(c) = self.resolve(f, l as u16) else { continue };
             let layer = &self.layers[l];
             let op = blend::mul_un8(layer.opacity, c.opacity);
@@ -627,25 +631,31 @@ pub fn predict(sem: &SpriteSem, want: &Want) -> Prediction {
         };
         o.frames.push(FrameObs { id: f as u32, duration: *d as u32, image });
     }
+    let blank = vec![[0u8; 4]; sem.w as usize * sem.h as usize];
     for f in 0..sem.durations.len() as u16 {
-        for l in 0..sem.layers.len() as u16 {
-            let c = sem.cels.get(&(f, l));
+        for l in 0..sem.layers.len() as u32 {
+            // layers beyond 65535 cannot hold cels (16-bit layer index in the cel chunk)
+            let c = if l <= u16::MAX as u32 { sem.cels.get(&(f, l as u16)) } else { None };
             o.cels.push(CelObs {
                 frame: f as u32,
-                layer: l as u32,
+                layer: l,
                 empty: c.is_none(),
                 top_left: c.map_or((0, 0), |c| (c.x as i32, c.y as i32)),
                 is_tilemap: matches!(c, Some(CelSem { content: Content::Tilemap { .. }, .. })),
                 ud: c.and_then(|c| c.ud.clone()),
-                image: if want.cel_images && canvas_ok { Some(img(sem, &sem.cel_image(f, l))) } else { None },
+                image: if want.cel_images && canvas_ok { Some(img(sem, &if l <= u16::MAX as u32 { sem.cel_image(f, l as u16) } else { blank.clone() })) } else { None },
             });
         }
     }
     o.routes_agree = true;
     if want.tilemaps {
-        for l in 0..sem.layers.len() as u16 {
+        for l32 in 0..sem.layers.len() as u32 {
+            let l = l32 as u16;
             for f in 0..sem.durations.len() as u16 {
                 let tm = (|| {
+                    if l32 > u16::MAX as u32 {
+                        return None;
+                    }
                     let LayerKind::Tilemap(ts) = sem.layers[l as usize].kind else { return None };
                     let t = sem.tilesets.get(&ts)?;
                     let c = sem.cels.get(&(f, l))?;
